@@ -18,6 +18,7 @@ import (
 	"syscall"
 	"time"
 
+	"github.com/ErdemOzgen/blackdagger/internal/agent"
 	"github.com/ErdemOzgen/blackdagger/internal/dag"
 	"github.com/ErdemOzgen/blackdagger/internal/dag/scheduler"
 	"github.com/ErdemOzgen/blackdagger/internal/zzverif/venv"
@@ -46,6 +47,10 @@ func readPid(f string) int {
 	n, _ := strconv.Atoi(strings.TrimSpace(string(b)))
 	return n
 }
+
+// cleanUp: the DAG's maximum clean-up time in the stop scenario (a step that ignores the stop signal is
+// force-killed once it has elapsed; the agent looks at its timers every 3 s)
+const cleanUp = 3 * time.Second
 
 func run(m member, work string, res *vlib.Result) {
 	_ = os.MkdirAll(work, 0o755)
@@ -82,7 +87,19 @@ func run(m member, work string, res *vlib.Result) {
 	done := make(chan *scheduler.Node, 64)
 	errc := make(chan error, 1)
 	t0 := time.Now()
-	go func() { errc <- sc.Schedule(ctx, g, done) }()
+	// the stop scenario goes through a real agent (the escalation to SIGKILL after the DAG's maximum
+	// clean-up time lives there), the timeout scenario through the scheduler alone
+	var ag *agent.Agent
+	if m.Scenario == "stop" {
+		env := venv.New(filepath.Join(work, "inst"))
+		ad := env.DAG("c05", steps...)
+		ad.MaxCleanUpTime = cleanUp
+		ad.HandlerOn.Exit = &onExit
+		ag = env.Agent("req", ad, &agent.Options{})
+		go func() { errc <- ag.Run(context.Background()) }()
+	} else {
+		go func() { errc <- sc.Schedule(ctx, g, done) }()
+	}
 	// wait for the process to exist
 	for i := 0; i < 300 && readPid(pidf) == 0; i++ {
 		time.Sleep(10 * time.Millisecond)
@@ -95,9 +112,8 @@ func run(m member, work string, res *vlib.Result) {
 	due := t0.Add(time.Second)
 	if m.Scenario == "stop" {
 		time.Sleep(200 * time.Millisecond)
-		sigDone := make(chan bool, 1)
-		go sc.Signal(g, syscall.SIGTERM, sigDone, true)
-		due = time.Now()
+		go ag.VerifStop() // what the /stop request does
+		due = time.Now().Add(cleanUp)
 	}
 	rp := map[string]any{"member": m}
 	select {
@@ -159,7 +175,7 @@ func main() {
 		}
 	}
 	res.Rule = "full product {DAG timeout 1 s, stop request} x {step dies on SIGTERM, ignores SIGTERM/SIGINT} x {command, script} x {signalOnStop unset, SIGINT} x {alone, next to an ordinary step}, each run by the real scheduler with real sh processes; every member is non-trivial"
-	res.Assume("real time; a run still going 12 s after its deadline / stop is a violation (expected: well under 1 s)")
+	res.Assume("real time; a run still going 12 s after its deadline (timeout scenario), resp. 12 s after the stop plus the DAG's maximum clean-up time of 3 s (stop scenario, through a real agent), is a violation")
 	res.Write(fl.Out)
 	os.RemoveAll(fl.Work)
 }
